@@ -24,6 +24,16 @@ class StackMonitor(BaseMonitor):
 
     def lvl(self, st): return st.x['lvl']
 
+    def on_hook(self, ex, e, cn, vals, st, fr):
+        # which objects the wrapped control's hook is given: the builder state must not be among them, the caller's states must all be
+        kinds = []
+        for v in vals:
+            o = st.heap.get(v.addr) if isinstance(v, Obj) else None
+            if isinstance(o, dict) and o.get('__ptstate'): kinds.append('builder')
+            elif isinstance(o, dict) and o.get('__state'): kinds.append('state')
+            elif isinstance(o, dict) and o.get('__input'): kinds.append('input')
+        st.events.append(('fwd', cn, tuple(kinds)))
+
     def call(self, ex, e, cu, cq, cn, ob, objloc, av, st, fr):
         o = st.heap.get(ob.addr) if isinstance(ob, Obj) else None
         def ret(v):
@@ -111,11 +121,19 @@ def run_hook(db, fn):
 
 
 def check_hook(db, fn, selected, leaf):
-    """returns list of problems for one handler hook"""
+    """returns list of problems for one handler hook; check_hook.forwards = the sequences of wrapped-control hooks called on its paths"""
     n = fn['n']
     probs = []
+    forwards = check_hook.forwards = set()
+    nstates = sum(1 for p in fn['params'] if p['t'].endswith('&') and 'parse_tree::internal::state<' not in p['t'] and '_input<' not in p['t'])
     for kind, evs, lvl in run_hook(db, fn):
         if kind == 'throw': continue
+        # forwarding (C08 for the wrapped control): which hooks of the caller's control this path calls, and with what
+        fw = [e for e in evs if isinstance(e, tuple) and e[0] == 'fwd']
+        forwards.add(tuple(e[1] for e in fw))
+        for e in fw:
+            if e[2].count('state') != nstates or 'builder' in e[2]:
+                probs.append('%s hands %s to the wrapped control, expected the input and the %d states of the caller without the builder state' % (n, list(e[2]), nstates))
         pushes = [e for e in evs if isinstance(e, tuple) and e[0] == 'push']; pops = [e for e in evs if isinstance(e, tuple) and e[0] == 'pop']
         att = [e for e in evs if isinstance(e, tuple) and e[0] in ('attach', 'attach-children')]
         nodes = [e for e in evs if isinstance(e, tuple) and e[0] == 'node']
@@ -178,6 +196,30 @@ def subs_of(db, rule):
                     elif y.get('k') == 'type': out.append(y['s'])
             flat(a.get('a', []))
             return out
+        todo.extend(r.get('bases', []))
+    return None
+
+
+def bases_closure(db, cls):
+    seen = set(); todo = [cls]
+    while todo:
+        c = todo.pop(0)
+        if c in seen: continue
+        seen.add(c)
+        todo.extend((db.records.get(c) or {}).get('bases', []))
+    return seen
+
+
+def const_of(db, cls, name):
+    """folded static constant of a class, own or inherited (first base that has it)"""
+    seen = set(); todo = [cls]
+    while todo:
+        c = todo.pop(0)
+        if c in seen: continue
+        seen.add(c)
+        r = db.records.get(c)
+        if not r: continue
+        if name in r.get('consts', {}): return r['consts'][name]
         todo.extend(r.get('bases', []))
     return None
 
